@@ -153,8 +153,27 @@ def terms(case, res):
     return out, inputs, ids
 
 
+def c2chain_obligation(run):
+    okc, gen, clog = vlib.run_translator(run, "c2chain")
+    run.checker_cmds.append("translator/c2chain (go/parser over /repo/internal/hsrv/script.go) -> GenC2.v ; coqc GenDepC07.v (c2_sources_match c2url_sources = true)")
+    if not okc:
+        run.oblige("translator c2chain ran on /repo's working tree", False, clog[-2000:])
+        return
+    open(os.path.join(run.rundir, "GenC2.v"), "w").write(gen)
+    open(os.path.join(run.rundir, "GenDepC07.v"), "w").write(
+        "From Coq Require Import List String.\nFrom CRS Require Import Lib.Bytes Model.Script Props.C07.\nFrom Gen Require Import GenC2.\n"
+        "Theorem c07_tree_c2_sources : c2url_found = 1%nat /\\ c2url_other_statements = 0%nat /\\ c2_sources_match c2url_sources = true.\n"
+        "Proof. vm_compute. repeat split; reflexivity. Qed.\nPrint Assumptions c07_tree_c2_sources.\n")
+    rc1, o1, e1 = vlib.coqc("GenC2.v", run.rundir, extra_q=[(run.rundir, "Gen")])
+    rc2, o2, e2 = vlib.coqc("GenDepC07.v", run.rundir, extra_q=[(run.rundir, "Gen")]) if rc1 == 0 else (1, "", "")
+    run.oblige("per-run obligation c07_tree_c2_sources: Server.c2URL of the working tree consults, in this order and nothing else, the c2 form/query "
+               "parameter, the c2 header, the punycoded Host and the TLS server name - the chain Model/Script.c2url and the seven precedence theorems are about",
+               rc1 == 0 and rc2 == 0, (gen + o1 + e1 + o2 + e2)[-2500:])
+
+
 def check(run):
     vlib.static_obligations(run)
+    c2chain_obligation(run)
     ok, binp, log = vlib.build_overlay_test(run.rundir, "internal/hsrv", go="go")
     run.checker_cmds.append("go test -c -tags verif -overlay (harness/overlay/hsrv): real Server; direct handler calls, raw TLS requests, template edits, a script run by /bin/sh with real curl")
     if not ok:
